@@ -27,7 +27,7 @@ Fixpoint bounds_split (bs : list Z) (l : list (coord * trie)) : list (coord * tr
   match bs with
   | [] => []
   | b :: bs' =>
-      match filter (fun ct => in_window b bs' (fst ct)) l with
+      match filter (fun ct : coord * trie => in_window b bs' (fst ct)) l with
       | [] => bounds_split bs' l
       | sel => (b, Node sel) :: bounds_split bs' l
       end
